@@ -1,5 +1,7 @@
 import Just.Lemmas.Syntax
 import Just.Lemmas.SyntaxWF
+import Just.Lemmas.SyntaxRoundtrip
+import Just.Lemmas.Header
 set_option linter.unusedSimpArgs false
 /-
 C10  Formatting preserves meaning and is idempotent.
@@ -13,197 +15,18 @@ settings, aliases, modules) are decided by the statement oracle of vlib/c10.py, 
 namespace Just.C10
 open Just Just.Syntax
 
-mutual
 /-- **Round trip.**  For every well-formed expression `e`, every level `k` at which it may stand,
 every continuation `rest` that does not extend a level-`k` phrase and every sufficient fuel, the
-level-`k` parser reads the printed tokens of `e` back as exactly `e` and stops at `rest`. -/
-theorem roundtrip : (e : Expr) → WF e → ∀ k, level e ≤ k → k ≤ 3 → ∀ f rest, 4 * e.size + k ≤ f → Stop k rest →
-    parseAt k f (printE e ++ rest) = some (e, rest)
-  | .str s, _ => by
-    refine climb _ 0 ?_ (fun _ rest => by simp [ValueStart, printE])
-    intro f rest hf _
-    obtain ⟨f', rfl⟩ : ∃ f', f = f' + 1 := ⟨f - 1, by simp [Expr.size] at hf; omega⟩
-    simp [parseAt, printE, parseValue_str]
-  | .backtick s, _ => by
-    refine climb _ 0 ?_ (fun _ rest => by simp [ValueStart, printE])
-    intro f rest hf _
-    obtain ⟨f', rfl⟩ : ∃ f', f = f' + 1 := ⟨f - 1, by simp [Expr.size] at hf; omega⟩
-    simp [parseAt, printE, parseValue_bt]
-  | .var n, hw => by
-    refine climb _ 0 ?_ (fun _ rest => valueStart_of_level0 _ hw rfl rest)
-    intro f rest hf hstop
-    obtain ⟨f', rfl⟩ : ∃ f', f = f' + 1 := ⟨f - 1, by simp [Expr.size] at hf; omega⟩
-    simp only [WF, okName] at hw
-    simp only [parseAt, printE, List.singleton_append]
-    apply parseValue_var _ _ _ hw.2
-    intro h
-    have := hstop .lparen h
-    simp [blocks] at this
-  | .call fn args, hw => by
-    refine climb _ 0 ?_ (fun _ rest => valueStart_of_level0 _ hw rfl rest)
-    intro f rest hf _
-    simp only [Expr.size] at hf
-    obtain ⟨f', rfl⟩ : ∃ f', f = f' + 1 := ⟨f - 1, by omega⟩
-    simp only [WF, okName] at hw
-    have hargs := roundtripArgs args hw.2 f' rest (by omega)
-    simp only [parseAt, printE, List.append_assoc, List.cons_append, List.nil_append, List.singleton_append] at hargs ⊢
-    exact parseValue_call_ok hw.1.2 hargs
-  | .assert a o b m, hw => by
-    refine climb _ 0 ?_ (fun _ rest => by simp [ValueStart, printE])
-    intro f rest hf _
-    simp only [Expr.size] at hf
-    have := size_pos a; have := size_pos b; have := size_pos m
-    obtain ⟨f', rfl⟩ : ∃ f', f = f' + 1 := ⟨f - 1, by omega⟩
-    simp only [WF] at hw
-    have ha := roundtrip a hw.1 3 (level_le3 a) (Nat.le_refl _)
-    have hb := roundtrip b hw.2.1 3 (level_le3 b) (Nat.le_refl _)
-    have hm := roundtrip m hw.2.2 3 (level_le3 m) (Nat.le_refl _)
-    have hc := condition_rt a b o (fun f rest h1 h2 => ha f rest h1 h2) (fun f rest h1 h2 => hb f rest h1 h2) f'
-      (.comma :: (printE m ++ .rparen :: rest)) (by omega) (by omega) (stop_cons 3 _ _ (by simp [blocks]))
-    have hm' := hm f' (.rparen :: rest) (by omega) (stop_cons 3 _ _ (by simp [blocks]))
-    simp only [parseAt] at hm'
-    simp only [parseAt, printE, List.append_assoc, List.cons_append, List.nil_append, List.singleton_append]
-    exact parseValue_assert_ok hc hm'
-  | .group e, hw => by
-    refine climb _ 0 ?_ (fun _ rest => by simp [ValueStart, printE])
-    intro f rest hf _
-    simp only [Expr.size] at hf
-    obtain ⟨f', rfl⟩ : ∃ f', f = f' + 1 := ⟨f - 1, by omega⟩
-    simp only [WF] at hw
-    have he := roundtrip e hw 3 (level_le3 e) (Nat.le_refl _) f' (.rparen :: rest) (by omega)
-      (stop_cons 3 _ _ (by simp [blocks]))
-    simp only [parseAt] at he
-    simp only [parseAt, printE, List.append_assoc, List.cons_append, List.nil_append, List.singleton_append]
-    exact parseValue_group_ok he
-  | .concat l r, hw => by
-    refine climb _ 1 ?_ (fun h => by omega)
-    intro f rest hf hstop
-    simp only [Expr.size] at hf
-    obtain ⟨f', rfl⟩ : ∃ f', f = f' + 1 := ⟨f - 1, by omega⟩
-    simp only [WF] at hw
-    obtain ⟨hl0, hr1, hwl, hwr⟩ := hw
-    have hl := roundtrip l hwl 0 (by omega) (by omega) f' (.plus :: (printE r ++ rest)) (by omega)
-      (stop_cons 0 _ _ (by simp [blocks]))
-    have hr := roundtrip r hwr 1 hr1 (by omega) f' rest (by omega) hstop
-    simp only [parseAt] at hl hr
-    have hs := valueStart_of_level0 l hwl hl0 (.plus :: (printE r ++ rest))
-    simp only [parseAt, printE, List.append_assoc, List.cons_append, List.nil_append, List.singleton_append]
-    exact parseConjunct_plus_ok hs hl hr
-  | .joinL l r, hw => by
-    refine climb _ 1 ?_ (fun h => by omega)
-    intro f rest hf hstop
-    simp only [Expr.size] at hf
-    obtain ⟨f', rfl⟩ : ∃ f', f = f' + 1 := ⟨f - 1, by omega⟩
-    simp only [WF] at hw
-    obtain ⟨hl0, hr1, hwl, hwr⟩ := hw
-    have hl := roundtrip l hwl 0 (by omega) (by omega) f' (.slash :: (printE r ++ rest)) (by omega)
-      (stop_cons 0 _ _ (by simp [blocks]))
-    have hr := roundtrip r hwr 1 hr1 (by omega) f' rest (by omega) hstop
-    simp only [parseAt] at hl hr
-    have hs := valueStart_of_level0 l hwl hl0 (.slash :: (printE r ++ rest))
-    simp only [parseAt, printE, List.append_assoc, List.cons_append, List.nil_append, List.singleton_append]
-    exact parseConjunct_join_ok hs hl hr
-  | .joinR r, hw => by
-    refine climb _ 1 ?_ (fun h => by omega)
-    intro f rest hf hstop
-    simp only [Expr.size] at hf
-    obtain ⟨f', rfl⟩ : ∃ f', f = f' + 1 := ⟨f - 1, by omega⟩
-    simp only [WF] at hw
-    have hr := roundtrip r hw.2 1 hw.1 (by omega) f' rest (by omega) hstop
-    simp only [parseAt] at hr
-    simp only [parseAt, printE, List.append_assoc, List.cons_append, List.nil_append, List.singleton_append]
-    exact parseConjunct_slash_ok hr
-  | .and l r, hw => by
-    refine climb _ 2 ?_ (fun h => by omega)
-    intro f rest hf hstop
-    simp only [Expr.size] at hf
-    obtain ⟨f', rfl⟩ : ∃ f', f = f' + 1 := ⟨f - 1, by omega⟩
-    simp only [WF] at hw
-    obtain ⟨hl1, hr2, hwl, hwr⟩ := hw
-    have hl := roundtrip l hwl 1 hl1 (by omega) f' (.andand :: (printE r ++ rest)) (by omega)
-      (stop_cons 1 _ _ (by simp [blocks]))
-    have hr := roundtrip r hwr 2 hr2 (by omega) f' rest (by omega) hstop
-    simp only [parseAt] at hl hr
-    simp only [parseAt, printE, List.append_assoc, List.cons_append, List.nil_append, List.singleton_append]
-    exact parseDisjunct_and_ok hl hr
-  | .or l r, hw => by
-    refine climb _ 3 ?_ (fun h => by omega)
-    intro f rest hf hstop
-    simp only [Expr.size] at hf
-    obtain ⟨f', rfl⟩ : ∃ f', f = f' + 1 := ⟨f - 1, by omega⟩
-    simp only [WF] at hw
-    obtain ⟨hl2, hwl, hwr⟩ := hw
-    have hl := roundtrip l hwl 2 hl2 (by omega) f' (.barbar :: (printE r ++ rest)) (by omega)
-      (stop_cons 2 _ _ (by simp [blocks]))
-    have hr := roundtrip r hwr 3 (level_le3 r) (by omega) f' rest (by omega) hstop
-    simp only [parseAt] at hl hr
-    simp only [parseAt, printE, List.append_assoc, List.cons_append, List.nil_append, List.singleton_append]
-    exact parseExpression_or_ok hl hr
-  | .cond a o b t x, hw => by
-    refine climb _ 1 ?_ (fun h => by omega)
-    intro f rest hf hstop
-    simp only [Expr.size] at hf
-    have := size_pos a; have := size_pos b; have := size_pos t; have := size_pos x
-    obtain ⟨g, rfl⟩ : ∃ g, f = g + 2 := ⟨f - 2, by omega⟩
-    simp only [WF] at hw
-    obtain ⟨hwa, hwb, hwt, hwx⟩ := hw
-    have ha := roundtrip a hwa 3 (level_le3 a) (Nat.le_refl _)
-    have hb := roundtrip b hwb 3 (level_le3 b) (Nat.le_refl _)
-    have hc := condition_rt a b o (fun f rest h1 h2 => ha f rest h1 h2) (fun f rest h1 h2 => hb f rest h1 h2) g
-      (.lbrace :: (printE t ++ .rbrace :: .ident "else" :: (printElse x ++ rest))) (by omega) (by omega)
-      (stop_cons 3 _ _ (by simp [blocks]))
-    have ht := roundtrip t hwt 3 (level_le3 t) (Nat.le_refl _) g
-      (.rbrace :: .ident "else" :: (printElse x ++ rest)) (by omega) (stop_cons 3 _ _ (by simp [blocks]))
-    simp only [parseAt] at ht
-    simp only [parseAt, printE, List.append_assoc, List.cons_append, List.nil_append, List.singleton_append]
-    rw [show g + 2 = (g + 1) + 1 from rfl, parseConjunct_if]
-    -- the else branch
-    by_cases hx : ∃ a' o' b' t' x', x = .cond a' o' b' t' x'
-    · obtain ⟨a', o', b', t', x', rfl⟩ := hx
-      -- `else if …`: the nested conditional is read by parse_conditional
-      have hx1 := roundtrip (.cond a' o' b' t' x') hwx 1 (by simp [level]) (by omega) (g + 1) rest (by omega) (hstop.le (by omega))
-      simp only [parseAt, printE, List.append_assoc, List.cons_append, List.nil_append, List.singleton_append] at hx1
-      rw [parseConjunct_if] at hx1
-      simp only [printElse, List.append_assoc, List.cons_append, List.nil_append, List.singleton_append] at hc ht ⊢
-      exact parseConditional_elseif_ok hc ht hx1
-    · have hnc : ∀ a' o' b' t' x', x ≠ .cond a' o' b' t' x' := fun a' o' b' t' x' h => hx ⟨a', o', b', t', x', h⟩
-      have hx3 := roundtrip x hwx 3 (level_le3 x) (Nat.le_refl _) g (.rbrace :: rest) (by omega)
-        (stop_cons 3 _ _ (by simp [blocks]))
-      simp only [parseAt] at hx3
-      rw [printElse_noncond x hnc] at hc ht ⊢
-      simp only [List.append_assoc, List.cons_append, List.nil_append, List.singleton_append] at hc ht ⊢
-      exact parseConditional_else_ok hc ht hx3
+level-`k` parser reads the printed tokens of `e` back as exactly `e` and stops at `rest`.
+(Proof: Lemmas/SyntaxRoundtrip.lean, mutual structural induction over `Expr` / `Exprs`.) -/
+theorem roundtrip (e : Expr) (hw : WF e) (k : Nat) (hk : level e ≤ k) (hk3 : k ≤ 3) (f : Nat) (rest : List Tk)
+    (hf : 4 * e.size + k ≤ f) (hstop : Stop k rest) : parseAt k f (printE e ++ rest) = some (e, rest) :=
+  roundtrip_core e hw k hk hk3 f rest hf hstop
+
 /-- arguments of a call -/
-theorem roundtripArgs : (es : Exprs) → WFs es → ∀ f rest, 4 * es.size + 1 ≤ f →
-    parseSequence f (printArgs es ++ [.rparen] ++ rest) = some (es, rest)
-  | .nil, _ => by
-    intro f rest hf
-    obtain ⟨f', rfl⟩ : ∃ f', f = f' + 1 := ⟨f - 1, by omega⟩
-    simp [printArgs, parseSequence_end]
-  | .cons e .nil, hw => by
-    intro f rest hf
-    simp only [Exprs.size] at hf
-    obtain ⟨f', rfl⟩ : ∃ f', f = f' + 1 := ⟨f - 1, by omega⟩
-    simp only [WFs] at hw
-    have he := roundtrip e hw.1 3 (level_le3 e) (Nat.le_refl _) f' (.rparen :: rest) (by omega)
-      (stop_cons 3 _ _ (by simp [blocks]))
-    simp only [parseAt] at he
-    have hne := head_ne_rparen e (.rparen :: rest)
-    simp only [printArgs, List.append_assoc, List.cons_append, List.nil_append, List.singleton_append]
-    exact parseSequence_last_ok hne he
-  | .cons e (.cons e' es), hw => by
-    intro f rest hf
-    simp only [Exprs.size] at hf
-    obtain ⟨f', rfl⟩ : ∃ f', f = f' + 1 := ⟨f - 1, by omega⟩
-    simp only [WFs] at hw
-    have he := roundtrip e hw.1 3 (level_le3 e) (Nat.le_refl _) f'
-      (.comma :: (printArgs (.cons e' es) ++ [.rparen] ++ rest)) (by omega) (stop_cons 3 _ _ (by simp [blocks]))
-    simp only [parseAt] at he
-    have hrec := roundtripArgs (.cons e' es) (by simp only [WFs]; exact hw.2) f' rest (by simp only [Exprs.size]; omega)
-    have hne := head_ne_rparen e (.comma :: (printArgs (.cons e' es) ++ [.rparen] ++ rest))
-    simp only [printArgs, List.append_assoc, List.cons_append, List.nil_append, List.singleton_append] at he hne hrec ⊢
-    exact parseSequence_comma_ok hne he hrec
-end
+theorem roundtripArgs (es : Exprs) (hw : WFs es) (f : Nat) (rest : List Tk) (hf : 4 * es.size + 1 ≤ f) :
+    parseSequence f (printArgs es ++ [.rparen] ++ rest) = some (es, rest) :=
+  roundtripArgs_core es hw f rest hf
 
 /-- **Formatting preserves the expression.**  Parsing the printed form of any expression the parser
 can produce yields that expression again and consumes every token. -/
@@ -246,6 +69,44 @@ theorem format_of_any_source (f : Nat) (ts : List Tk) (e : Expr) (rest : List Tk
     parseExpression (4 * e.size + 3) (printE e) = some (e, [])
     ∧ (parseExpression (4 * e.size + 3) (printE e)).map (fun r => printE r.1) = some (printE e) :=
   ⟨parse_print e (parsed_is_wellformed f ts e rest h), format_idempotent e (parsed_is_wellformed f ts e rest h)⟩
+
+/-! ### recipe header lines (name, parameters with defaults, variadic, dependencies with arguments, `&&`) -/
+
+/-- **Round trip of recipe headers.**  For every header whose defaults are values and whose dependency
+arguments do not begin with a token that would continue the previous argument (`WFHeader`), printing
+the header (`ColorDisplay for Recipe` up to the body) and parsing it (`parse_recipe` up to `expect_eol`)
+returns exactly the header - quiet flag, name, every parameter with its kind, `$` export and default,
+the variadic parameter, the prior and the subsequent dependencies with all their arguments. -/
+theorem header_roundtrip (h : Header.Header) (hw : Header.WFHeader h) (fuel : Nat) (hf : Header.HeaderFuel fuel h)
+    (rest : List Tk) : Header.parseHeader fuel (Header.printHeader h ++ rest) = some (h, rest) :=
+  Header.parseHeader_rt h hw fuel hf rest
+
+/-- non-vacuity: `@build target $mode='debug' +flags=(a + 'x'): clean (fetch 'src' mode) && (notify target)` -/
+example : Header.WFHeader
+    ⟨true, "build",
+     [⟨.singular, false, "target", none⟩, ⟨.singular, true, "mode", some (.str "'debug'")⟩],
+     some ⟨.plus, false, "flags", some (.group (.concat (.var "a") (.str "'x'")))⟩,
+     [⟨"clean", []⟩, ⟨"fetch", [.str "'src'", .var "mode"]⟩],
+     [⟨"notify", [.var "target"]⟩]⟩ := by
+  constructor
+  · intro p hp
+    simp at hp
+    rcases hp with rfl | rfl <;> simp [Header.WFParam, WF, level]
+  · intro v hv
+    simp at hv
+    subst hv
+    simp [Header.WFParam, WF, level, okName]
+  · intro d hd
+    simp at hd
+    rcases hd with rfl | rfl
+    · simp [Header.WFDep, Header.WFArgs]
+    · refine ⟨trivial, ?_, ?_⟩
+      · exact stop_cons 3 _ _ (by simp [blocks])
+      · simp [Header.WFArgs, WF, okName]
+  · intro d hd
+    simp at hd
+    subst hd
+    simp [Header.WFDep, Header.WFArgs, WF, okName]
 
 /-- non-vacuity: `if a == (b + 'c') { f(x, y) / z } else if … { … } else { / w && v || u }` is well-formed -/
 example : WF (.cond (.var "a") .eq (.group (.concat (.var "b") (.str "'c'")))
